@@ -118,6 +118,26 @@ func unsealAfterRejected(b *frame.Builder, s *state.Session, tampered, genuine [
 	return
 }
 
+// unsealAfterAccepted hands the receiver (fresh replay state) the genuine frame first and then,
+// with the state that left behind, a tampered copy: what was verified for one frame must not
+// vouch for another.
+func unsealAfterAccepted(b *frame.Builder, s *state.Session, genuine, tampered []byte) (genuineOK, tamperedOK, panicked bool) {
+	resetReceiver(s)
+	try := func(data []byte) bool {
+		cp := append([]byte(nil), data...)
+		f, err := b.ParseFrame(cp, nil, 0)
+		if err != nil {
+			return false
+		}
+		return f.Unseal(s) == nil
+	}
+	panicked, _ = recoverPanic(func() {
+		genuineOK = try(genuine)
+		tamperedOK = try(tampered)
+	})
+	return
+}
+
 func runC02(c *Ctx) error {
 	c.Res.Rule = "frames of all 7 message types x payload sizes (1,2,44,45,200 + tier boundaries to 10000) x switch block sizes (0,1,2,127,254,255) x appendix sizes x builder margins; " +
 		"layout compared byte for byte with the model; every sealed frame: real primitives re-run over the model's ranges, every byte position mutated (one bit quick / every bit thorough for small frames), " +
@@ -398,6 +418,17 @@ func runC02(c *Ctx) error {
 					c.Violate(fmt.Sprintf("changing the %s invalidated a frame", region), "free-"+region, rep)
 				case !free && ok:
 					c.Violate(fmt.Sprintf("frame with a changed %s byte unsealed", region), "tamper-"+region, rep)
+				case !free && (pos < 16 || c.Rng.IntN(6) == 0) && func() bool {
+					// ... and the other way round: the genuine frame was accepted first; a copy that differs in a
+					// protected byte (for sequence fields: also one that only moves the sequence forward) is still rejected
+					c.Eval()
+					c.Count("tampered-after-accepted:" + region)
+					gok, tok, tpan := unsealAfterAccepted(builder, sba, d, md)
+					if tpan || !gok || tok {
+						c.Violate(fmt.Sprintf("after the genuine frame was accepted, a copy with a changed %s byte unsealed on the same session", region), "tamper-after-accepted-"+region, rep)
+					}
+					return false
+				}():
 				case !free && (pos < 52 || len(d) <= 400 || c.Rng.IntN(4) == 0):
 					// the rejected frame leaves no trace: the genuine frame, arriving after it, still unseals
 					c.Eval()
